@@ -6,14 +6,15 @@
 From Typ Require Export Lib.Base Slices.SortSearch Slices.Sorted.
 
 (* how the object is built: NewSortedOrdered, or NewSorted with one of the
-   harness's less functions (a<b, b<a, a>>2 < b>>2 : key-only, with ties), or
-   not at all (OZero: the zero value [var s Sorted[int]], less == nil; outside
-   the property, run only to tie the model's "not initialized" branch to the code) *)
-Inductive order := OOrdered | ONat | ORev | OKey | OZero.
+   harness's less functions (a<b, b<a, a>>2 < b>>2 : key-only, with ties).
+   The zero value [var s Sorted[int]] (less == nil, the model's [None] branch)
+   is outside the property: the harness runs it and only counts whether the
+   code does what the transcription says; it is not judged here. *)
+Inductive order := OOrdered | ONat | ORev | OKey.
 
 Definition less_of (o : order) : Z -> Z -> bool :=
   match o with
-  | OOrdered | ONat | OZero => Z.ltb
+  | OOrdered | ONat => Z.ltb
   | ORev => fun a b => Z.ltb b a
   | OKey => fun a b => Z.ltb (a / 4) (b / 4)
   end.
@@ -30,7 +31,6 @@ Record case := Case {
 Definition new_case (c : case) : result (sorted Z) :=
   match c_order c with
   | OOrdered => NewSortedOrdered 0%Z insertion_sort Z.ltb (c_init c)
-  | OZero => Ok (MkSorted [] None)
   | o => NewSorted 0%Z insertion_sort (c_init c) (less_of o)
   end.
 
